@@ -317,7 +317,7 @@ Proof.
   - (* grouping parentheses *)
     assert (Hnt : ntoks (D hdr None (Some (None, d')) [] arrays) =
                   List.length hdr + (S (ntoks d' + 1) + List.length (List.concat (map alen_toks arrays)))).
-    { unfold ntoks. cbn [sdecl_toks]. rewrite !app_length, map_length. cbn [List.length]. lia. }
+    { unfold ntoks. cbn [sdecl_toks]. rewrite !app_length, map_length. cbn [List.length]. Show. lia. }
     rewrite Hnt in *. clear Hnt. unfold ntoks in *.
     cbn [sdecl_toks nops cost apply_decl] in Hat, Hroom |- *.
     apply At_app in Hat as [Hat1 Hat2]. rewrite map_length in Hat2.
